@@ -8,6 +8,7 @@ import (
 	"encoding/xml"
 	"fmt"
 	"math"
+	"math/big"
 	"net/url"
 	"reflect"
 	"regexp"
@@ -129,7 +130,9 @@ func genDurStr(t *rapid.T) string {
 	n := 0
 	num := func(label string, max int64) string {
 		n++
-		return fmt.Sprintf("%d", rapid.Int64Range(0, max).Draw(t, label))
+		v := fmt.Sprintf("%d", rapid.Int64Range(0, max).Draw(t, label))
+		// leading zeros are part of the xsd:duration lexical space (decimal, never octal)
+		return strings.Repeat("0", rapid.SampledFrom([]int{0, 0, 0, 1, 2}).Draw(t, label+"lz")) + v
 	}
 	if rapid.Bool().Draw(t, "hasY") {
 		b.WriteString(num("y", 200) + "Y")
@@ -681,12 +684,57 @@ func checkDur(d int64) pbt.Result {
 	return res
 }
 
+var durRef = regexp.MustCompile(`^(-?)P(?:(\d+)D)?(?:T(?:(\d+)H)?(?:(\d+)M)?(?:(\d+)(?:\.(\d+))?S)?)?$`)
+
+// refDuration is an independent reading of an xsd:duration without year / month
+// designators (whose length in seconds is a convention, not a fact): decimal digits,
+// 24 h days, fraction truncated to nanoseconds. ok=false when out of scope or overflowing.
+func refDuration(s string) (int64, bool) {
+	m := durRef.FindStringSubmatch(s)
+	if m == nil {
+		return 0, false
+	}
+	total := new(big.Int)
+	add := func(digits string, unit int64) {
+		if digits == "" {
+			return
+		}
+		v, _ := new(big.Int).SetString(digits, 10)
+		total.Add(total, v.Mul(v, big.NewInt(unit)))
+	}
+	add(m[2], int64(24*time.Hour))
+	add(m[3], int64(time.Hour))
+	add(m[4], int64(time.Minute))
+	add(m[5], int64(time.Second))
+	if f := m[6]; f != "" {
+		if len(f) > 9 {
+			f = f[:9]
+		}
+		add(f+strings.Repeat("0", 9-len(f)), 1)
+	}
+	if !total.IsInt64() {
+		return 0, false
+	}
+	v := total.Int64()
+	if m[1] == "-" {
+		v = -v
+	}
+	return v, true
+}
+
 func checkDurStr(s string) pbt.Result {
 	res := pbt.Result{Classes: []string{"durstr"}, NonTrivial: strings.Contains(s, ".") || strings.Contains(s, "Y") || strings.HasPrefix(s, "-")}
 	var d saml.Duration
 	if err := d.UnmarshalText([]byte(s)); err != nil {
 		res.Err = fmt.Sprintf("grammar-valid xsd:duration %q rejected: %v", s, err)
 		return res
+	}
+	if want, ok := refDuration(s); ok {
+		res.Classes = append(res.Classes, "durstr:value-checked")
+		if int64(d) != want {
+			res.Err = fmt.Sprintf("xsd:duration %q unmarshals to %d ns, its decimal reading is %d ns", s, int64(d), want)
+			return res
+		}
 	}
 	text, err := d.MarshalText()
 	if err != nil {
@@ -1265,6 +1313,15 @@ func enumMilliSeconds(tier string, emit func(Case)) {
 	}
 }
 
+func enumDurStrings(_ string, emit func(Case)) {
+	for _, n := range []string{"0", "1", "7", "8", "9", "08", "09", "010", "017", "0019", "00", "59", "060", "100"} {
+		for _, tmpl := range []string{"PT%sS", "PT%sM", "PT%sH", "P%sD", "PT%s.5S", "PT1M%sS", "-PT%sS", "P%sDT%sH"} {
+			s := strings.ReplaceAll(tmpl, "%s", n)
+			emit(Case{Kind: "durstr", Str: s})
+		}
+	}
+}
+
 func enumZones(_ string, emit func(Case)) {
 	// every zone offset in quarter hours from -14:00 to +14:00, at three instants with sub-ms digits
 	for off := -14 * 60; off <= 14*60; off += 15 {
@@ -1291,6 +1348,7 @@ var prop = &pbt.Prop[Case]{
 		{Name: "duration-microsecond-grid", Each: enumMicroGrid},
 		{Name: "duration-millisecond-grid", Each: enumMilliSeconds},
 		{Name: "instant-zone-offsets", Each: enumZones},
+		{Name: "duration-strings-leading-zeros", Each: enumDurStrings},
 	},
 	Assumptions: []string{
 		"instants are restricted to those whose millisecond-rounded UTC value lies in years 0001-9999 (the 4-digit lexical form cannot express more)",
